@@ -20,7 +20,7 @@ def run(ck):
     ck.rule = ("one case = fresh server, one immutable + one mutable storage index with 1..3 shares each (v1/v2 mixed) "
                "and a history of 40..90 lease/data operations; distinct = distinct (setup, history); non-trivial = "
                "history renewed a known secret, tried an unknown one and wrote data on a share with >4 leases")
-    ncases = 100 if ck.tier == "quick" else 7000
+    ncases = 80 if ck.tier == "quick" else 2500
     for ci in range(ncases):
         if not ck.mine(ci):
             continue
